@@ -35,6 +35,7 @@ import (
 //	del <A> <pw>                        -> ok A<i> | nil | err:<class>
 //	setdef <A> | setlabel <A> <label> | chpw <A> <old> <new> | chsig <A> <scheme>  -> ok | err:<class>
 //	seclevel <low|def> <pw,..>          -> ok | err:count | err:failed:<i> | panic   (passwords in wallet-file order; ok is followed by a save)
+//	exportlow | save | ximport <A> | chpwfault <A> <old> <new> | chpwconc <A> <old> <new,..> | chpwwon <A> <old> <new>   (see Exec)
 //	reload                              -> ok n=<GetAccountNum> file=<accounts in file>
 //	num                                 -> <n>
 //	auditlive                           -> ok     (the same on the live client)
@@ -49,6 +50,7 @@ type walletFam struct {
 	caseNo int
 	cliB   *account.ClientImpl // a second wallet that imports accounts from the first (cross-wallet aliasing)
 	inB    []*liveAcc          // what was imported into it, with the password valid at import time
+	light  bool                // live audits probe own and replaced passwords only (every probe is a scrypt run)
 	winner []byte              // new password of the ChangePassword call that won the last concurrent round
 }
 
@@ -67,6 +69,8 @@ type liveAcc struct {
 	shadow  bool // a later import of the same address replaced it in the address index
 	mode    string
 	oldPw   []byte // the password replaced by the last successful ChangePassword
+	noIndex bool   // same address as a deleted entry: DeleteAccount dropped the address from the live client's index
+	// (the entry is still in the file and is found again after a reload) — not looked up by address on the live client
 }
 
 func init() { families["wallet"] = func() hx.Family { return &walletFam{} } }
@@ -312,6 +316,11 @@ func (f *walletFam) Exec(r *hx.Run, op []string) string {
 				if f.keys[l.key].addr == addr {
 					l.deleted = true
 					f.order = append(append([]*liveAcc{}, f.order[:i]...), f.order[i+1:]...)
+					for _, o := range f.order {
+						if f.keys[o.key].addr == addr {
+							o.noIndex = true
+						}
+					}
 					break
 				}
 			}
@@ -588,6 +597,9 @@ func (f *walletFam) Exec(r *hx.Run, op []string) string {
 			return "err:open"
 		}
 		f.cli = c
+		for _, l := range f.live {
+			l.noIndex = false
+		}
 		return fmt.Sprintf("ok n=%d file=%d", c.GetAccountNum(), len(c.GetWalletData().Accounts))
 	case "num":
 		return strconv.Itoa(f.cli.GetAccountNum())
@@ -595,12 +607,26 @@ func (f *walletFam) Exec(r *hx.Run, op []string) string {
 		return f.audit(r)
 	case "auditlive": // the same audit on the live client (no re-open)
 		if f.cli != nil {
+			f.light = true
 			f.auditOn(r, f.cli, "live")
+			f.light = false
 		}
 		f.auditB(r)
 		return "ok"
 	}
 	return "bad-op"
+}
+
+// liveFor returns the live record behind the address index entry of a symbolic account (nil when deleted).
+func (f *walletFam) liveFor(sym string) *liveAcc {
+	addr := f.realAddr(sym)
+	var last *liveAcc
+	for _, l := range f.live {
+		if !l.deleted && f.keys[l.key].addr == addr {
+			last = l
+		}
+	}
+	return last
 }
 
 func (f *walletFam) addOutcome(ki int) string {
@@ -655,7 +681,7 @@ func (f *walletFam) auditOn(r *hx.Run, c *account.ClientImpl, where string) {
 		params = "custom-scrypt"
 	}
 	for _, l := range f.live {
-		if l.deleted || l.shadow {
+		if l.deleted || l.shadow || (where == "live" && l.noIndex) {
 			continue
 		}
 		k := f.keys[l.key]
@@ -673,6 +699,9 @@ func (f *walletFam) auditOn(r *hx.Run, c *account.ClientImpl, where string) {
 			if acc, err := c.GetAccountByAddress(k.addr, l.oldPw); err == nil && acc != nil {
 				r.Viol("C43:old-password-still-opens-after-change:"+where, fmt.Sprintf("account A%d (%s client) still opens with the password replaced by ChangePassword", l.key, where))
 			}
+		}
+		if f.light {
+			continue
 		}
 		for _, wrong := range [][]byte{flipLast(l.pw), append([]byte("x"), l.pw...)} {
 			if bytes.Equal(hmacKey(wrong), hmacKey(l.pw)) {
@@ -799,7 +828,7 @@ func (f *walletFam) Gen(r *hx.Run) {
 		var ents []ent
 		reloaded := false
 		kk := keyKinds[c%len(keyKinds)]
-		nOps := 6 + g.Intn(r.Pick(6, 10))
+		nOps := 5 + g.Intn(r.Pick(5, 10))
 		for k := 0; k < nOps; k++ {
 			x := g.Intn(20)
 			if k == 0 {
@@ -941,6 +970,62 @@ func (f *walletFam) Gen(r *hx.Run) {
 					}
 				}
 				used["chpw"] = true
+			}
+		}
+		if (c%3 == 0 || r.Thorough()) && len(ents) > 0 {
+			// aliasing of protected-key buffers: an export made from a clone, an import into a second wallet, a failed
+			// and a successful password change in this wallet — then both wallets are audited, live and re-opened
+			i := g.Intn(len(ents))
+			if f.liveFor(ents[i].sym) != nil && len(ents[i].pw) > 0 {
+				r.Do("ximport " + ents[i].sym)
+				r.Do("exportlow")
+				r.Do("save")
+				r.Do("auditlive")
+				np2 := append([]byte("second-"), pws()...)
+				if out := r.Do(fmt.Sprintf("chpw %s %s %s", ents[i].sym, hx.Hex(ents[i].pw), hx.Hex(np2))); out == "ok" {
+					sym := ents[i].sym
+					for j := range ents {
+						if ents[j].sym == sym {
+							ents[j].pw = np2
+						}
+					}
+				}
+				r.Do("auditlive")
+				used["aliasing"] = true
+			}
+		}
+		if (c%3 == 2 || r.Thorough()) && len(ents) > 0 {
+			// a password change whose save fails must be rolled back completely
+			i := g.Intn(len(ents))
+			if f.liveFor(ents[i].sym) != nil && len(ents[i].pw) > 0 {
+				np := append([]byte("faulty-"), pws()...)
+				r.Do(fmt.Sprintf("chpwfault %s %s %s", ents[i].sym, hx.Hex(ents[i].pw), hx.Hex(np)))
+				r.Do("auditlive")
+				used["chpwfault"] = true
+			}
+		}
+		if (c%3 == 1 || r.Thorough()) && len(ents) > 0 {
+			// overlapping password changes of one account with the same old password
+			i := g.Intn(len(ents))
+			if l := f.liveFor(ents[i].sym); l != nil && len(ents[i].pw) > 0 {
+				k := 2 + g.Intn(3)
+				var news []string
+				for j := 0; j < k; j++ {
+					news = append(news, hx.Hex([]byte(fmt.Sprintf("racer-%d-%d", j, g.Intn(1000)))))
+				}
+				out := r.Do(fmt.Sprintf("chpwconc %s %s %s", ents[i].sym, hx.Hex(ents[i].pw), strings.Join(news, ",")))
+				if out != "winners=0" && f.winner != nil {
+					r.Do(fmt.Sprintf("chpwwon %s %s %s", ents[i].sym, hx.Hex(ents[i].pw), hx.Hex(f.winner)))
+					sym := ents[i].sym
+					w := append([]byte{}, f.winner...)
+					for j := range ents {
+						if ents[j].sym == sym {
+							ents[j].pw = w
+						}
+					}
+					r.Do(fmt.Sprintf("get %s %s", sym, hx.Hex(w)))
+				}
+				used["chpwconc"] = true
 			}
 		}
 		if c%2 == 0 || r.Thorough() {
